@@ -93,6 +93,16 @@ ResRemoveField(objs, op) ==
                             ![op.h].vals = IF IsRes(e) THEN Del(e.vals, op.f) ELSE e.vals],
       ret |-> "ok"]}
 
+\* the type a soft resource stands on (its public Type field) loses a field and gains another one, and
+\* nothing of the resource is called in between: "changing the type automatically changes the
+\* resource's attributes and relationships; when a field is added, its value is the zero value of the
+\* field's type" (one step of the driver, two edits of the type; op.id is the new field's name)
+ResTypeRename(objs, op) ==
+    LET e == objs[op.h] IN
+    {[post |-> [objs EXCEPT ![op.h].fields = Put(Del(e.fields, op.f), op.id, op.def),
+                            ![op.h].vals = Put(Del(e.vals, op.f), op.id, Zero(op.def))],
+      ret |-> "ok"]}
+
 \* Type.Copy of the object's type: a new entry holding the type alone
 ResTypeCopy(objs, op) ==
     LET e == objs[op.h] IN
@@ -129,6 +139,7 @@ Res(objs, op) ==
       [] op.op = "Filter"      -> ResFilter(objs, op)
       [] op.op = "AddField"    -> ResAddField(objs, op)
       [] op.op = "RemoveField" -> ResRemoveField(objs, op)
+      [] op.op = "TypeRename"  -> ResTypeRename(objs, op)
       [] op.op = "TypeCopy"    -> ResTypeCopy(objs, op)
       [] op.op = "DerivedNew"  -> ResDerivedNew(objs, op)
 
@@ -148,6 +159,7 @@ Enabled(objs, op) ==
               [] op.op \in {"SetID", "Copy", "NewLike", "Marshal", "TypeCopy", "TypeEdit"} -> IsRes(e)
               [] op.op = "DerivedNew" -> IsRes(e) /\ e.impl = "soft"
               [] op.op \in {"AddField", "RemoveField"} -> e.impl \in {"soft", "type"}
+              [] op.op = "TypeRename" -> e.impl = "soft" /\ op.f \in DOMAIN e.fields /\ op.id \notin DOMAIN e.fields
               [] OTHER -> FALSE
 
 Allowed(pre, op, post, ret) == [post |-> post, ret |-> ret] \in Res(pre, op)
